@@ -247,6 +247,39 @@ impl Logical {
         self.build_with_order(&order)
     }
 
+    /// The same logical archive reached through detours: shuffled insertion, some ids first bound
+    /// to junk and then replaced, some ids re-added with the bytes they already hold (once while
+    /// they are the only user of that content, once while it is shared), extra ids added and removed.
+    pub fn build_messy(&self, rng: &mut Rng) -> PMTiles<Cursor<&'static [u8]>> {
+        let mut pm = PMTiles::new(ttype(self.tile_type), comp(self.tile_compression));
+        self.apply_settings(&mut pm);
+        let mut ids: Vec<u64> = self.tiles.keys().copied().collect();
+        rng.shuffle(&mut ids);
+        let junk = vec![0xE1u8; 11];
+        let extra: Vec<u64> = (0..4).map(|_| rng.below(id_domain())).filter(|x| !self.tiles.contains_key(x)).collect();
+        for x in &extra {
+            pm.add_tile(*x, junk.clone()).expect("add");
+        }
+        for (k, id) in ids.iter().enumerate() {
+            if k % 7 == 3 {
+                pm.add_tile(*id, junk.clone()).expect("add");
+            }
+            pm.add_tile(*id, self.tiles[id].as_ref().clone()).expect("add");
+            if k % 5 == 1 {
+                // re-add identical bytes right away
+                pm.add_tile(*id, self.tiles[id].as_ref().clone()).expect("add");
+            }
+        }
+        for id in ids.iter().step_by(9) {
+            // re-add identical bytes at the end (content possibly shared by now)
+            pm.add_tile(*id, self.tiles[id].as_ref().clone()).expect("add");
+        }
+        for x in &extra {
+            pm.remove_tile(*x);
+        }
+        pm
+    }
+
     pub fn build_async(&self) -> PMTiles<futures::io::Cursor<&'static [u8]>> {
         let mut pm = PMTiles::new_async(ttype(self.tile_type), comp(self.tile_compression));
         self.apply_settings(&mut pm);
@@ -299,6 +332,9 @@ pub enum SizeClass {
     Medium,
     /// enough high-entropy entries to overflow the 16 KiB root with every codec
     Spill,
+    /// 66k-140k tiles on consecutive ids alternating between a few short contents: more than 2^16
+    /// entries that still compress into a single root directory
+    HugeRegular,
 }
 
 fn content_pool(rng: &mut Rng, n: usize, max_len: u64, budget: usize) -> Vec<Rc<Vec<u8>>> {
@@ -306,7 +342,28 @@ fn content_pool(rng: &mut Rng, n: usize, max_len: u64, budget: usize) -> Vec<Rc<
     let mut used = 0usize;
     for i in 0..n {
         let left = budget.saturating_sub(used).max(1);
-        let c: Vec<u8> = if i > 0 && rng.chance(1, 5) {
+        let c: Vec<u8> = if i > 0 && max_len >= 100_000 && left > 200_000 && rng.chance(1, 6) {
+            // collision bait for sampled / truncated content hashes: a LARGE content that equals an earlier one
+            // except for one byte in the middle (same length, same first and last 16 KiB), or only the
+            // first / last byte
+            let bi = (0..i).rev().find(|j| pool[*j].len() >= 40_000);
+            let mut c = match bi {
+                Some(j) => pool[j].as_ref().clone(),
+                None => {
+                    let n = rng.usize(40_000, 90_000);
+                    rng.bytes(n)
+                }
+            };
+            let at = match rng.below(4) {
+                0 => 0,
+                1 => c.len() - 1,
+                _ => c.len() / 2 + rng.usize(0, 64),
+            };
+            if bi.is_some() {
+                c[at] ^= 0x01;
+            }
+            c
+        } else if i > 0 && rng.chance(1, 5) {
             // near-duplicate: same length, one byte differs / shared prefix
             let base = pool[rng.usize(0, i - 1)].as_ref().clone();
             let mut c = base;
@@ -420,7 +477,38 @@ pub fn gen_logical(rng: &mut Rng, class: SizeClass, internal: u8) -> Logical {
         SizeClass::Small => (rng.usize(2, 50), 100 * 1024, 2 << 20),
         SizeClass::Medium => (rng.usize(1000, 5000), 4096, 8 << 20),
         SizeClass::Spill => (rng.usize(20_000, 60_000), 48, 8 << 20),
+        SizeClass::HugeRegular => (0, 1, 1),
     };
+    if class == SizeClass::HugeRegular {
+        let n = *rng.pick(&[65_535u64, 65_536, 65_537, 70_000, 100_000, 131_073]);
+        let k = rng.usize(2, 3);
+        let len = rng.usize(8, 40);
+        let pool: Vec<Rc<Vec<u8>>> = (0..k)
+            .map(|j| {
+                let mut c = rng.bytes(len);
+                c[0] = j as u8;
+                Rc::new(c)
+            })
+            .collect();
+        let start = rng.below(1 << 20);
+        let mut tiles = BTreeMap::new();
+        for i in 0..n {
+            // strictly alternating: no two neighbours merge into a run
+            tiles.insert(start + i, pool[(i as usize) % k].clone());
+        }
+        return Logical {
+            tiles,
+            meta: gen_metadata(rng),
+            tile_type: rng.below(6) as u8,
+            tile_compression: rng.below(5) as u8,
+            internal_compression: internal,
+            min_zoom: rng.next() as u8,
+            max_zoom: rng.next() as u8,
+            center_zoom: rng.next() as u8,
+            coords: gen_coords(rng),
+            class: format!("HugeRegular/{n}"),
+        };
+    }
     let ids = if class == SizeClass::Spill {
         // high entropy ids so that every codec overflows 16 KiB
         let mut cur = rng.below(1 << 10);
